@@ -59,6 +59,10 @@ def handleJsonVal : Handler := fun op args =>
     let env ← decEnv tbl
     let j ← Json.ofSexp j
     pure (toString (Sexp.encBool (docOK env j)))
+  | "json.docoku", [tbl, j] => do
+    let env ← decEnv tbl
+    let j ← Json.ofSexp j
+    pure (toString (Sexp.encBool (docOKU env j)))
   | "json.parsenum", [s] => do
     let s ← Sexp.decStr s
     pure (resTag (fun n => toString n.toSexp) (Num.parse512 s))
